@@ -45,7 +45,7 @@ Verdict(f, items, j) ==
      \cup Fl2("drift.format",
               ModelOf(f) \in NameFormats =>
                  /\ Enc(f, it.v) = it.enc
-                 /\ Same(Dec(f, it.v, it.enc), it.v)),
+                 /\ Dec(f, it.v, it.enc) = it.v),
    ex |-> Ex("C15", it.ok)]
 
 TraceInit == /\ fmt \in {r.fmt : r \in SetOf(Recs)}
